@@ -12,8 +12,8 @@
    "just-in-time" linearization, kept as a set instead of being searched):
 
      * LinInvoke(C, p, op)   p invokes op: op becomes pending in every configuration; the set is then closed under
-                             "some pending, not yet linearized operation takes effect now" (LinClose).  Closing at
-                             invocations is enough: a response only removes possibilities.
+                             "some pending, not yet linearized operation takes effect now" and under silent steps
+                             (LinClose).
      * LinRespond(C, p, r)   p's operation returns r: keep the configurations that had linearized it with a result
                              matching r (ResMatch), retire the operation.
      * LinOk(C)              C # {}: the history is linearizable w.r.t. the sequential specification iff the set never
@@ -32,8 +32,14 @@
      SeqApply(p,op,s)   the sequential specification: the SET of <<s2, res>> such that process p executing op
                         atomically in state s may leave s2 and return res (empty set = op not enabled; nondeterminism
                         = several elements)
+     SeqInternal(s)     silent steps of the sequential specification: the set of states reachable from s by one step
+                        that belongs to no particular operation's linearization point (e.g. an operation that takes
+                        effect at one point but delivers part of its effect later, piecemeal, before it returns: the
+                        deliveries are silent steps enabled while that operation is pending).  {} if there are none.
      ResMatch(fix,obs,s) does the observed result obs agree with the result fix that the sequential specification
                         fixed, in a configuration whose abstract state is now s?  (Plain equality for most uses.)
+     RespEffect(p,s)    what the return of process p's operation does to the abstract state: a set of states, {s} if
+                        nothing, {} to reject (e.g. "p may not return while it still owes a delivery")
      QuietOk(s)         what must hold of the abstract state whenever NO operation is pending (obligations that the
                         specification lets operations discharge late -- e.g. "every released waiter has been woken" --
                         fall due at quiescence); TRUE if there is none.  LinRespond drops configurations that are
@@ -47,7 +53,7 @@
    (operator parameters are substituted by operator names or LAMBDAs).                                              *)
 EXTENDS Naturals, FiniteSets
 
-CONSTANTS Procs, NoOp, NoRes, SeqApply(_, _, _), ResMatch(_, _, _), QuietOk(_)
+CONSTANTS Procs, NoOp, NoRes, SeqApply(_, _, _), SeqInternal(_), ResMatch(_, _, _), RespEffect(_, _), QuietOk(_)
 
 \* the single initial configuration for initial abstract state s0
 LinInit(s0) == { [s |-> s0, pend |-> [p \in Procs |-> NoOp], lin |-> [p \in Procs |-> NoRes]] }
@@ -55,10 +61,12 @@ LinInit(s0) == { [s |-> s0, pend |-> [p \in Procs |-> NoOp], lin |-> [p \in Proc
 \* processes of configuration c whose pending operation has not taken effect yet
 Unlinearized(c) == { p \in Procs : c.pend[p] # NoOp /\ c.lin[p] = NoRes }
 
-\* all configurations reachable from c by letting ONE pending operation take effect
+\* all configurations reachable from c by letting ONE pending operation take effect, or by one silent step of the
+\* sequential specification
 LinStep(c) ==
     UNION { { [s |-> r[1], pend |-> c.pend, lin |-> [c.lin EXCEPT ![p] = r[2]]] : r \in SeqApply(p, c.pend[p], c.s) }
             : p \in Unlinearized(c) }
+    \cup { [c EXCEPT !.s = s2] : s2 \in SeqInternal(c.s) }
 
 \* closure under LinStep (terminates: every step linearizes one of finitely many pending operations).
 \* Frontier form: only configurations found in the previous round are expanded.
@@ -74,7 +82,8 @@ LinInvoke(C, p, op) == LinClose({ [c EXCEPT !.pend[p] = op] : c \in C })
 
 LinRespond(C, p, res) ==
     LET kept == { d \in C : d.lin[p] # NoRes /\ ResMatch(d.lin[p], res, d.s) }
-        retired == { [c EXCEPT !.pend[p] = NoOp, !.lin[p] = NoRes] : c \in kept }
+        retired == UNION { { [c EXCEPT !.pend[p] = NoOp, !.lin[p] = NoRes, !.s = s2] : s2 \in RespEffect(p, c.s) }
+                           : c \in kept }
     IN { c \in retired : (\A q \in Procs : c.pend[q] = NoOp) => QuietOk(c.s) }
 
 \* an observation that is not an operation (e.g. "waker k of wait w was invoked"): a deterministic update F of the
